@@ -10,7 +10,6 @@ import json
 import multiprocessing
 import os
 import random
-import signal
 import subprocess
 import sys
 import time
@@ -23,6 +22,8 @@ VERIF = os.path.dirname(os.path.dirname(os.path.abspath(__file__)))
 REPO = os.path.realpath(os.environ.get('VERIF_REPO', '/repo'))
 OUT = os.environ.get('VERIF_OUT', os.path.join(VERIF, 'out'))
 RUN_WALL_CAP_S = 120
+MAX_MINIMISED_GROUPS = 3
+MINIMISE_TOTAL_S = 60
 
 
 class HarnessError(Exception):
@@ -98,27 +99,23 @@ def make_plan(prop, verif_seed, idx):
     return plan, s_sched
 
 
-def _alarm(signum, frame):
-    raise RunTimeout()
+def _execute_in_child(prop, plan, tape):
+    res = prop.execute(plan, tape)
+    res.decisions = list(tape.decisions)
+    return res
 
 
 def guarded_execute(prop, plan, tape):
-    """execute() under a wall cap; harness exceptions are classified apart from violations."""
-    res = None
-    old = signal.signal(signal.SIGALRM, _alarm)
-    signal.alarm(RUN_WALL_CAP_S)
-    try:
-        res = prop.execute(plan, tape)
-    except RunTimeout:
-        res = Result()
-        res.error = 'wall cap of %ds hit' % RUN_WALL_CAP_S
-    except Exception:
-        res = Result()
-        res.error = traceback.format_exc()
-    finally:
-        signal.alarm(0)
-        signal.signal(signal.SIGALRM, old)
-    res.decisions = list(tape.decisions)
+    """execute() in a forked child under a wall cap. The calling process never runs code of the
+    system under test, so every execution starts from the same pristine image; harness
+    exceptions and timeouts are classified apart from violations."""
+    from . import pristine
+    kind, val = pristine.fork_call(lambda: _execute_in_child(prop, plan, tape), timeout=RUN_WALL_CAP_S)
+    if kind == 'ok':
+        return val
+    res = Result()
+    res.error = 'wall cap of %ds hit' % RUN_WALL_CAP_S if kind == 'timeout' else val
+    res.decisions = []
     return res
 
 
@@ -377,6 +374,8 @@ def run_batch(prop_name, tier, verif_seed, n_runs, wall_budget_s, workers=None, 
     for r in sorted(results_bad, key=lambda r: r.idx):
         groups.setdefault((r.vclass, r.signature), []).append(r)
     n_viol = 0
+    n_groups_reported = 0
+    t_min0 = time.time()
     for (vclass, signature), rs in groups.items():
         r = rs[0]
         kf = match_known(known, prop.ID, vclass, signature)
@@ -385,6 +384,15 @@ def run_batch(prop_name, tier, verif_seed, n_runs, wall_budget_s, workers=None, 
                 prop.ID, kf.get('what', ''), vclass, signature, len(rs)))
             continue
         n_viol += len(rs)
+        n_groups_reported += 1
+        if n_groups_reported > MAX_MINIMISED_GROUPS or time.time() - t_min0 > MINIMISE_TOTAL_S:
+            # further distinct violations: reported with their recorded (un-minimised) replay
+            path = write_replay(prop.ID, verif_seed, r.idx, r.plan, r.decisions or [], r, False)
+            print('violation class=%s signature=%s runs=%d detail=%s' % (
+                vclass, signature, len(rs), r.detail), file=sys.stderr)
+            lines.append('VIOLATION property=%s replay=%s' % (prop.ID, path))
+            exit_code = 1
+            continue
         if getattr(r, 'batch_level', False):
             path = write_replay(prop.ID, verif_seed, r.idx, r.plan, r.decisions or [], r, False,
                                 {'batch_level': True})
@@ -403,8 +411,9 @@ def run_batch(prop_name, tier, verif_seed, n_runs, wall_budget_s, workers=None, 
 
     wall = time.time() - t_start
     if errors:
-        for e in errors[:5]:
-            print('HARNESS-ERROR: %s' % e, file=sys.stderr)
+        for e in errors[:2]:
+            print('HARNESS-ERROR: %s' % e[-1500:], file=sys.stderr)
+        print('HARNESS-ERROR: %d runs failed inside the harness' % len(errors), file=sys.stderr)
         if exit_code == 0:
             exit_code = 2
 
@@ -453,8 +462,9 @@ def write_evidence(prop, tier, verif_seed, runs, wall, stats, inter, inter_nt, s
         },
         'assumptions': prop.ASSUMPTIONS,
     }
-    os.makedirs(os.path.join(VERIF, 'evidence'), exist_ok=True)
-    path = os.path.join(VERIF, 'evidence', prop.ID + '.json')
+    evdir = os.environ.get('VERIF_EVIDENCE_DIR') or os.path.join(VERIF, 'evidence')
+    os.makedirs(evdir, exist_ok=True)
+    path = os.path.join(evdir, prop.ID + '.json')
     with open(path, 'w') as f:
         json.dump(ev, f, indent=1, sort_keys=True, default=str)
         f.write('\n')
